@@ -27,6 +27,8 @@ class Hole:
         self.fi = fi
         self.params = params          # builder parameters the expression derives from
         self.text = ast.unparse(expr)
+        self.resolved = expr          # the expression with single-assignment locals of the builder inlined
+        self.resolved_text = self.text
         self.binding = binding or {}  # for inlined callee templates: callee param -> caller params
 
     def __repr__(self):
@@ -142,6 +144,20 @@ class _BuilderWalk:
         self.results: list[Variant] = []
         self.internal: list[Variant] = []
         self.param_of: dict[str, set[str]] = {p: {p} for p in fi.params}
+        # single-assignment locals with a call-free or simple definition, for resolving holes
+        self.local_defs: dict[str, ast.AST] = {}
+        counts: dict[str, int] = {}
+        for n in ast.walk(fi.node):
+            if isinstance(n, (ast.Assign, ast.AugAssign, ast.AnnAssign, ast.For)):
+                tg = n.targets if isinstance(n, ast.Assign) else [n.target]
+                for t in tg:
+                    for x in ast.walk(t):
+                        if isinstance(x, ast.Name):
+                            counts[x.id] = counts.get(x.id, 0) + 1
+        for n in ast.walk(fi.node):
+            if isinstance(n, ast.Assign) and len(n.targets) == 1 and isinstance(n.targets[0], ast.Name) and \
+                    counts.get(n.targets[0].id) == 1 and n.targets[0].id not in fi.params:
+                self.local_defs[n.targets[0].id] = n.value
 
     def run(self, internal=False):
         env = {}
@@ -155,6 +171,20 @@ class _BuilderWalk:
             if isinstance(n, ast.Name) and n.id in self.param_of:
                 out |= self.param_of[n.id]
         return out
+
+    def _resolve(self, e: ast.AST, depth: int = 4) -> ast.AST:
+        import copy
+        defs = self.local_defs
+
+        class T(ast.NodeTransformer):
+            def __init__(self, d):
+                self.d = d
+
+            def visit_Name(self, n):
+                if isinstance(n.ctx, ast.Load) and n.id in defs and self.d > 0:
+                    return T(self.d - 1).visit(copy.deepcopy(defs[n.id]))
+                return n
+        return T(depth).visit(copy.deepcopy(e))
 
     def _block(self, stmts, env, guards):
         for st in stmts:
@@ -285,6 +315,13 @@ class _BuilderWalk:
             l, r = self._src_value(e.left, env), self._src_value(e.right, env)
             if l is not None and r is not None:
                 return l + r
+            # 'push x' + key.hex() + ' check_sig': the non-literal side is a hole, as in an f-string
+            if l is not None and r is None and not _is_scriptish(e.right):
+                h = Hole(e.right, self.fi, self.prov(e.right))
+                return l + [Seg('text', mark(h), {h.id: h})]
+            if r is not None and l is None and not _is_scriptish(e.left):
+                h = Hole(e.left, self.fi, self.prov(e.left))
+                return [Seg('text', mark(h), {h.id: h})] + r
             return None
         if isinstance(e, ast.Call) and isinstance(e.func, ast.Attribute) and e.func.attr == 'join' and \
                 isinstance(e.func.value, ast.Constant) and e.args and isinstance(e.args[0], ast.ListComp):
@@ -327,6 +364,8 @@ class _BuilderWalk:
                     cur = Seg('text', '')
                     continue
                 h = Hole(x, self.fi, self.prov(x))
+                h.resolved = self._resolve(x)
+                h.resolved_text = ast.unparse(h.resolved)
                 cur.text += mark(h)
                 cur.holes[h.id] = h
         if cur.text or cur.holes:
@@ -409,6 +448,7 @@ class _BuilderWalk:
                             params |= self.prov(a)
                         # unbound parameter: callee default - no caller parameter involved
                     nh = Hole(h.expr, h.fi, params, binding={p: bound.get(p) for p in h.params})
+                    nh.resolved, nh.resolved_text = h.resolved, h.resolved_text
                     ns.text = ns.text.replace(mark(h), mark(nh))
                     ns.holes[nh.id] = nh
                     nh.origin = h
@@ -425,6 +465,14 @@ class _BuilderWalk:
                 v = self._src_value(n.args[0], env)
                 if v is not None:
                     self.internal.append(Variant(self.fi, v, list(guards), n.lineno))
+
+
+def _is_scriptish(e: ast.AST) -> bool:
+    """Expressions that denote Script objects (handled by _script_value), not text."""
+    if isinstance(e, ast.Call):
+        nm = dotted(e.func) or ''
+        return nm in SRC_SINKS or nm == 'Script' or nm.startswith(('make_', '_make_'))
+    return False
 
 
 def _bind(callee, call: ast.Call) -> dict:
